@@ -93,6 +93,15 @@ type serverConn struct {
 	// Thus, the number stored in closeRef is used to complete all the requests that were sent before
 	// to gracefully close the connection with a GOAWAY.
 	closeRef uint32
+	// closeRefSet says closeRef is meaningful: the stream loop has sent a GOAWAY
+	// and the connection ends once the streams up to closeRef have finished.
+	// closeRef alone cannot say so, zero being what it holds before any stream.
+	closeRefSet uint32
+
+	// discardBuf holds the tail of a header field cut in half by the end of a
+	// frame, for a header block that is decoded only to keep the HPACK context
+	// in step (see discardHeaders).
+	discardBuf []byte
 
 	// maxRequestTime is the max time of a request over one single stream
 	maxHeaderList int
@@ -463,11 +472,13 @@ func (sc *serverConn) handleStreams() {
 	// recent ids are kept: a peer that has not caught up is at most a round
 	// trip behind, and an unbounded set would grow for the whole life of the
 	// connection.
-	closedStrms := make(map[uint32]struct{}, closedStrmsCap)
+	// The value says whether it was this end that reset the stream, in which
+	// case the peer may still have frames for it in flight.
+	closedStrms := make(map[uint32]bool, closedStrmsCap)
 	closedRing := make([]uint32, 0, closedStrmsCap)
 	closedOldest := 0
 
-	markClosed := func(id uint32) {
+	markClosed := func(id uint32, local bool) {
 		if _, ok := closedStrms[id]; ok {
 			return
 		}
@@ -480,7 +491,7 @@ func (sc *serverConn) handleStreams() {
 			closedOldest = (closedOldest + 1) % closedStrmsCap
 		}
 
-		closedStrms[id] = struct{}{}
+		closedStrms[id] = local
 	}
 
 	// releaseStream returns a finished stream and its context to the pools and
@@ -511,7 +522,7 @@ func (sc *serverConn) handleStreams() {
 	closeStream := func(strm *Stream) {
 		strmID := strm.ID()
 
-		markClosed(strmID)
+		markClosed(strmID, strm.resetByUs)
 		strms.Del(strmID)
 
 		sc.closeBodyStream(strm)
@@ -563,10 +574,11 @@ func (sc *serverConn) handleStreams() {
 	// A GOAWAY that carries no reference has nothing to wait for and nothing to
 	// close on either: those paths break the loop where they send it.
 	canCloseAfterGoAway := func() bool {
-		ref := atomic.LoadUint32(&sc.closeRef)
-		if ref == 0 {
+		if atomic.LoadUint32(&sc.closeRefSet) == 0 {
 			return false
 		}
+
+		ref := atomic.LoadUint32(&sc.closeRef)
 
 		for _, strm := range strms {
 			if strm.origType == FrameHeaders && strm.ID() <= ref {
@@ -584,6 +596,12 @@ func (sc *serverConn) handleStreams() {
 loop:
 	for {
 		releaseHandled()
+
+		// A GOAWAY sent on one of the paths that go straight to the next
+		// frame has nothing else to end the connection for it.
+		if canCloseAfterGoAway() {
+			break loop
+		}
 
 		if verifOn {
 			vSLIdle(sc, strms, openStreams, len(closedRing))
@@ -646,7 +664,7 @@ loop:
 				if sc.debug {
 					sc.logger.Printf("Stream timed out: %d\n", strm.ID())
 				}
-				sc.writeReset(strm.ID(), StreamCanceled)
+				sc.resetStream(strm, StreamCanceled)
 
 				// set the state to closed in case it comes back to life later
 				strm.SetState(StreamStateClosed)
@@ -750,7 +768,7 @@ loop:
 					continue
 				}
 
-				if _, ok := closedStrms[fr.Stream()]; ok {
+				if local, ok := closedStrms[fr.Stream()]; ok {
 					// A WINDOW_UPDATE, RST_STREAM or PRIORITY frame may
 					// legitimately arrive shortly after a stream is closed,
 					// because the peer had not yet processed the END_STREAM or
@@ -760,6 +778,23 @@ loop:
 					// error.
 					switch fr.Type() {
 					case FramePriority, FrameWindowUpdate, FrameResetStream:
+					case FrameHeaders, FrameContinuation, FrameData:
+						if !local {
+							sc.writeGoAway(fr.Stream(), StreamClosedError, "frame on closed stream")
+							break
+						}
+
+						// It was this end that reset (or refused) the stream,
+						// and the peer sent this before it found out. The
+						// frame is dropped, but not what it does to the state
+						// the connection shares: a header block still goes
+						// through the HPACK decoder and DATA still counts
+						// against the connection window (RFC 7540 5.1, 6.9).
+						if fr.Type() == FrameData {
+							sc.consumeConnWindow(fr.Len())
+						} else if err := sc.discardHeaders(fr); err != nil {
+							sc.writeGoAway(fr.Stream(), CompressionError, err.Error())
+						}
 					default:
 						sc.writeGoAway(fr.Stream(), StreamClosedError, "frame on closed stream")
 					}
@@ -784,7 +819,13 @@ loop:
 
 				// if the client has more open streams than the maximum allowed OR
 				//   the connection is closing, then refuse the stream
-				if openStreams >= int(sc.st.maxStreams) || wasClosing {
+				// The id counts as used from here on, refused or not: a GOAWAY
+				// being sent by the read loop right now either reports it or
+				// has raised the closing flag that is read next, because
+				// writeGoAway does the two in the opposite order.
+				atomic.StoreUint32(&sc.lastID, fr.Stream())
+
+				if openStreams >= int(sc.st.maxStreams) || wasClosing || isClosing() {
 					if sc.debug {
 						if wasClosing {
 							sc.logger.Printf("Closing the connection. Rejecting stream %d\n", fr.Stream())
@@ -795,6 +836,16 @@ loop:
 					}
 
 					sc.writeReset(fr.Stream(), RefusedStreamError)
+
+					// Remembered as reset by this end, so that the rest of its
+					// header block and whatever else is in flight is dropped
+					// rather than mistaken for frames on an idle stream. The
+					// block it came with still has to go through the decoder.
+					markClosed(fr.Stream(), true)
+
+					if err := sc.discardHeaders(fr); err != nil {
+						sc.writeGoAway(fr.Stream(), CompressionError, err.Error())
+					}
 
 					continue
 				}
@@ -810,7 +861,6 @@ loop:
 				// HEADERS frame and streams that are reserved using PUSH_PROMISE.
 				if fr.Type() == FrameHeaders {
 					openStreams++
-					sc.lastID = fr.Stream()
 				}
 
 				sc.createStream(sc.c, fr.Type(), strm)
@@ -903,7 +953,7 @@ loop:
 				// bytes actually received.
 				// https://httpwg.org/specs/rfc7540.html#rfc.section.8.1.2.6
 				if strm.hasContentLength && strm.recvBody != strm.contentLength {
-					sc.writeReset(strm.ID(), ProtocolError)
+					sc.resetStream(strm, ProtocolError)
 					strm.SetState(StreamStateClosed)
 				} else {
 					// The response comes back on handlerDone, not here.
@@ -950,6 +1000,18 @@ func (sc *serverConn) consumeRecvWindow(strm *Stream, fr *FrameHeader, n int) {
 		sc.writeWindowUpdate(strm.ID(), n)
 	}
 
+	sc.consumeConnWindow(n)
+}
+
+// consumeConnWindow accounts for flow-controlled bytes against the connection
+// window alone. DATA that is dropped, because its stream has been reset or its
+// body refused, has used the connection window all the same, and a peer that
+// never gets it back stops sending on every stream.
+func (sc *serverConn) consumeConnWindow(n int) {
+	if n <= 0 {
+		return
+	}
+
 	sc.currentWindow -= int32(n)
 	if sc.currentWindow < sc.maxWindow/2 {
 		inc := sc.maxWindow - sc.currentWindow
@@ -957,6 +1019,50 @@ func (sc *serverConn) consumeRecvWindow(strm *Stream, fr *FrameHeader, n int) {
 
 		sc.writeWindowUpdate(0, int(inc))
 	}
+}
+
+// resetStream sends RST_STREAM for a stream that is still in the table and
+// notes that the reset came from this end.
+func (sc *serverConn) resetStream(strm *Stream, code ErrorCode) {
+	strm.resetByUs = true
+
+	sc.writeReset(strm.ID(), code)
+}
+
+// discardHeaders runs a header block fragment nobody is going to look at
+// through the HPACK decoder. Its stream has been refused or reset, but the
+// peer encoded the block against the table both ends share before it knew
+// that, so skipping it leaves the tables different and a later request fails
+// to decode, or decodes to something else.
+func (sc *serverConn) discardHeaders(fr *FrameHeader) error {
+	blockStart := fr.Type() != FrameContinuation && len(sc.discardBuf) == 0
+
+	b := append(sc.discardBuf, fr.Body().(FrameWithHeaders).Headers()...)
+	sc.discardBuf = b[:0]
+
+	hf := AcquireHeaderField()
+	defer ReleaseHeaderField(hf)
+
+	var err error
+
+	for fields := 0; len(b) > 0; fields++ {
+		pb := b
+
+		b, err = sc.dec.nextField(hf, blockStart, fields, b)
+		if err != nil {
+			if errors.Is(err, ErrUnexpectedSize) && !fr.Flags().Has(FlagEndHeaders) &&
+				(sc.maxHeaderList <= 0 || len(pb) <= sc.maxHeaderList) {
+				// the rest of the field is in the next frame
+				sc.discardBuf = append(sc.discardBuf, pb...)
+
+				return nil
+			}
+
+			return err
+		}
+	}
+
+	return nil
 }
 
 func (sc *serverConn) writeWindowUpdate(id uint32, inc int) {
@@ -991,11 +1097,20 @@ func (sc *serverConn) writeReset(strm uint32, code ErrorCode) {
 }
 
 func (sc *serverConn) writeGoAway(strm uint32, code ErrorCode, message string) {
+	// The closing flag goes up before the last stream id is read, and the
+	// stream loop publishes a new id before it reads the flag. One of the two
+	// therefore sees the other: either the id is reported here, or the stream
+	// is refused there. Reporting the id the frame at fault came on, or zero,
+	// told the peer it could replay requests that had reached a handler.
+	atomic.StoreInt32((*int32)(&sc.state), int32(connStateClosed))
+
+	last := atomic.LoadUint32(&sc.lastID)
+
 	ga := AcquireFrame(FrameGoAway).(*GoAway)
 
 	fr := AcquireFrameHeader()
 
-	ga.SetStream(strm)
+	ga.SetStream(last)
 	ga.SetCode(code)
 	ga.SetData([]byte(message))
 
@@ -1004,10 +1119,9 @@ func (sc *serverConn) writeGoAway(strm uint32, code ErrorCode, message string) {
 	sc.write(fr)
 
 	if strm != 0 {
-		atomic.StoreUint32(&sc.closeRef, sc.lastID)
+		atomic.StoreUint32(&sc.closeRef, last)
+		atomic.StoreUint32(&sc.closeRefSet, 1)
 	}
-
-	atomic.StoreInt32((*int32)(&sc.state), int32(connStateClosed))
 
 	if sc.debug {
 		sc.logger.Printf(
@@ -1029,7 +1143,7 @@ func (sc *serverConn) writeError(strm *Stream, err error) {
 			return
 		}
 
-		sc.writeReset(strm.ID(), InternalError)
+		sc.resetStream(strm, InternalError)
 		strm.SetState(StreamStateClosed)
 
 		return
@@ -1048,7 +1162,7 @@ func (sc *serverConn) writeError(strm *Stream, err error) {
 			return
 		}
 
-		sc.writeReset(strm.ID(), streamErr.Code())
+		sc.resetStream(strm, streamErr.Code())
 	}
 
 	if strm != nil {
@@ -1156,6 +1270,9 @@ func (sc *serverConn) handleFrame(strm *Stream, fr *FrameHeader) error {
 		strm.recvBody += len(data)
 
 		if sc.maxRequestBodySize > 0 && strm.recvBody > sc.maxRequestBodySize {
+			// The frame is dropped, but it has used the connection window.
+			sc.consumeConnWindow(fr.Len())
+
 			return NewResetStreamError(EnhanceYourCalm, "request body is too large")
 		}
 
@@ -1233,6 +1350,13 @@ func (sc *serverConn) handleHeaderFrame(strm *Stream, fr *FrameHeader) error {
 
 	var err error
 
+	// streamErr is what is wrong with the request, once something is. The
+	// stream is reset for it, but only after the rest of the fragment has been
+	// through the decoder: the peer encoded all of it against the table both
+	// ends share, and stopping at the offending field leaves the tables
+	// different for every request that follows on the connection.
+	var streamErr error
+
 	fieldsProcessed := 0
 
 	for len(b) > 0 {
@@ -1247,7 +1371,14 @@ func (sc *serverConn) handleHeaderFrame(strm *Stream, fr *FrameHeader) error {
 			// truncated field is a decoding error.
 			if errors.Is(err, ErrUnexpectedSize) && len(pb) > 0 && !fr.Flags().Has(FlagEndHeaders) {
 				err = nil
-				strm.previousHeaderBytes = append(strm.previousHeaderBytes, pb...)
+
+				if streamErr != nil {
+					// the stream is about to go; the CONTINUATION frames that
+					// finish the field are decoded by discardHeaders
+					sc.discardBuf = append(sc.discardBuf[:0], pb...)
+				} else {
+					strm.previousHeaderBytes = append(strm.previousHeaderBytes, pb...)
+				}
 			} else {
 				err = NewGoAwayError(CompressionError, err.Error())
 			}
@@ -1255,102 +1386,124 @@ func (sc *serverConn) handleHeaderFrame(strm *Stream, fr *FrameHeader) error {
 			break
 		}
 
-		k, v := hf.KeyBytes(), hf.ValueBytes()
+		fieldsProcessed++
 
-		// RFC 7540 6.5.2 sizes a field as name + value + 32. The running total
-		// spans the whole header block, so splitting it over CONTINUATION
-		// frames does not get around the limit.
-		strm.headerListSize += len(k) + len(v) + 32
-		if sc.maxHeaderList > 0 && strm.headerListSize > sc.maxHeaderList {
-			return NewGoAwayError(EnhanceYourCalm, "header list exceeds the maximum size")
-		}
-
-		// Header field names must not contain uppercase characters.
-		// https://httpwg.org/specs/rfc7540.html#rfc.section.8.1.2
-		if hasUpperCase(k) {
-			return NewResetStreamError(ProtocolError, "header field name contains uppercase characters")
-		}
-
-		if hf.IsPseudo() {
-			// All pseudo-header fields must appear before regular header fields.
-			// https://httpwg.org/specs/rfc7540.html#rfc.section.8.1.2.1
-			if strm.regularSeen {
-				return NewResetStreamError(ProtocolError, "pseudo-header field after regular header field")
-			}
-
-			switch {
-			case bytes.Equal(k, StringMethod):
-				if strm.pseudoMethod {
-					return NewResetStreamError(ProtocolError, "duplicate :method pseudo-header")
-				}
-				strm.pseudoMethod = true
-				req.Header.SetMethodBytes(v)
-			case bytes.Equal(k, StringPath):
-				if strm.pseudoPath {
-					return NewResetStreamError(ProtocolError, "duplicate :path pseudo-header")
-				}
-				strm.pseudoPath = true
-				strm.path = append(strm.path[:0], v...)
-				req.Header.SetRequestURIBytes(v)
-			case bytes.Equal(k, StringScheme):
-				if strm.pseudoScheme {
-					return NewResetStreamError(ProtocolError, "duplicate :scheme pseudo-header")
-				}
-				strm.pseudoScheme = true
-				strm.scheme = append(strm.scheme[:0], v...)
-			case bytes.Equal(k, StringAuthority):
-				if strm.pseudoAuthority {
-					return NewResetStreamError(ProtocolError, "duplicate :authority pseudo-header")
-				}
-				strm.pseudoAuthority = true
-				req.Header.SetHostBytes(v)
-				req.Header.AddBytesV("Host", v)
-			default:
-				// Any pseudo-header that is not a valid request pseudo-header
-				// (including response pseudo-headers such as :status) is invalid.
-				return NewResetStreamError(ProtocolError, fmt.Sprintf("invalid request pseudo-header %s", k))
-			}
-
-			fieldsProcessed++
+		if streamErr != nil {
 			continue
 		}
 
-		// From here on it is a regular header field.
-		strm.regularSeen = true
-
-		// Connection-specific header fields are forbidden.
-		// https://httpwg.org/specs/rfc7540.html#rfc.section.8.1.2.2
-		if isConnectionSpecific(k) {
-			return NewResetStreamError(ProtocolError, "connection-specific header field")
-		}
-
-		if bytes.Equal(k, StringTE) && !bytes.Equal(v, StringTrailers) {
-			return NewResetStreamError(ProtocolError, "TE header field with a value other than trailers")
-		}
-
-		switch {
-		case bytes.Equal(k, StringUserAgent):
-			req.Header.SetUserAgentBytes(v)
-		case bytes.Equal(k, StringContentType):
-			req.Header.SetContentTypeBytes(v)
-		case bytes.Equal(k, StringContentLength):
-			if n, perr := parseUint(v); perr == nil {
-				if sc.maxRequestBodySize > 0 && n > sc.maxRequestBodySize {
-					return NewResetStreamError(EnhanceYourCalm, "request body is too large")
-				}
-
-				strm.contentLength = n
-				strm.hasContentLength = true
+		if ferr := sc.requestField(strm, req, hf); ferr != nil {
+			var h2err Error
+			if errors.As(ferr, &h2err) && h2err.frameType == FrameGoAway {
+				return ferr
 			}
-			req.Header.AddBytesKV(k, v)
-		default:
-			req.Header.AddBytesKV(k, v)
-		}
 
-		fieldsProcessed++
+			streamErr = ferr
+		}
+	}
+
+	if err == nil {
+		err = streamErr
 	}
 
 	return err
+}
+
+// requestField checks one decoded field of a request header block against RFC
+// 7540 8.1.2 and stores it in the request.
+func (sc *serverConn) requestField(strm *Stream, req *fasthttp.Request, hf *HeaderField) error {
+	k, v := hf.KeyBytes(), hf.ValueBytes()
+
+	// RFC 7540 6.5.2 sizes a field as name + value + 32. The running total
+	// spans the whole header block, so splitting it over CONTINUATION
+	// frames does not get around the limit.
+	strm.headerListSize += len(k) + len(v) + 32
+	if sc.maxHeaderList > 0 && strm.headerListSize > sc.maxHeaderList {
+		return NewGoAwayError(EnhanceYourCalm, "header list exceeds the maximum size")
+	}
+
+	// Header field names must not contain uppercase characters.
+	// https://httpwg.org/specs/rfc7540.html#rfc.section.8.1.2
+	if hasUpperCase(k) {
+		return NewResetStreamError(ProtocolError, "header field name contains uppercase characters")
+	}
+
+	if hf.IsPseudo() {
+		// All pseudo-header fields must appear before regular header fields.
+		// https://httpwg.org/specs/rfc7540.html#rfc.section.8.1.2.1
+		if strm.regularSeen {
+			return NewResetStreamError(ProtocolError, "pseudo-header field after regular header field")
+		}
+
+		switch {
+		case bytes.Equal(k, StringMethod):
+			if strm.pseudoMethod {
+				return NewResetStreamError(ProtocolError, "duplicate :method pseudo-header")
+			}
+			strm.pseudoMethod = true
+			req.Header.SetMethodBytes(v)
+		case bytes.Equal(k, StringPath):
+			if strm.pseudoPath {
+				return NewResetStreamError(ProtocolError, "duplicate :path pseudo-header")
+			}
+			strm.pseudoPath = true
+			strm.path = append(strm.path[:0], v...)
+			req.Header.SetRequestURIBytes(v)
+		case bytes.Equal(k, StringScheme):
+			if strm.pseudoScheme {
+				return NewResetStreamError(ProtocolError, "duplicate :scheme pseudo-header")
+			}
+			strm.pseudoScheme = true
+			strm.scheme = append(strm.scheme[:0], v...)
+		case bytes.Equal(k, StringAuthority):
+			if strm.pseudoAuthority {
+				return NewResetStreamError(ProtocolError, "duplicate :authority pseudo-header")
+			}
+			strm.pseudoAuthority = true
+			req.Header.SetHostBytes(v)
+			req.Header.AddBytesV("Host", v)
+		default:
+			// Any pseudo-header that is not a valid request pseudo-header
+			// (including response pseudo-headers such as :status) is invalid.
+			return NewResetStreamError(ProtocolError, fmt.Sprintf("invalid request pseudo-header %s", k))
+		}
+
+		return nil
+	}
+
+	// From here on it is a regular header field.
+	strm.regularSeen = true
+
+	// Connection-specific header fields are forbidden.
+	// https://httpwg.org/specs/rfc7540.html#rfc.section.8.1.2.2
+	if isConnectionSpecific(k) {
+		return NewResetStreamError(ProtocolError, "connection-specific header field")
+	}
+
+	if bytes.Equal(k, StringTE) && !bytes.Equal(v, StringTrailers) {
+		return NewResetStreamError(ProtocolError, "TE header field with a value other than trailers")
+	}
+
+	switch {
+	case bytes.Equal(k, StringUserAgent):
+		req.Header.SetUserAgentBytes(v)
+	case bytes.Equal(k, StringContentType):
+		req.Header.SetContentTypeBytes(v)
+	case bytes.Equal(k, StringContentLength):
+		if n, perr := parseUint(v); perr == nil {
+			if sc.maxRequestBodySize > 0 && n > sc.maxRequestBodySize {
+				return NewResetStreamError(EnhanceYourCalm, "request body is too large")
+			}
+
+			strm.contentLength = n
+			strm.hasContentLength = true
+		}
+		req.Header.AddBytesKV(k, v)
+	default:
+		req.Header.AddBytesKV(k, v)
+	}
+
+	return nil
 }
 
 // validateRequestPseudoHeaders enforces that a completed request header block
@@ -1549,7 +1702,7 @@ func (sc *serverConn) sendData(strm *Stream) bool {
 				// through a body it will otherwise wait for.
 				sc.logger.Printf("ERROR: reading the response body: %s\n", err)
 				sc.closeBodyStream(strm)
-				sc.writeReset(strm.ID(), InternalError)
+				sc.resetStream(strm, InternalError)
 
 				return true
 			}
